@@ -1027,7 +1027,7 @@ class PathEnumerator:
                 st.events.extend(_events_of(s.value, st.env, s))
             elif isinstance(s, ast.Assert):
                 st.events.extend(_events_of(s.test, st.env, s))
-                st.conds.append(Cond(s.test, subst(s.test, st.env), True))
+                st.conds.append(Cond(s.test, subst(s.test, st.env), "assert"))  # not a branch: no path is decided by it, no guard established by it
             elif isinstance(s, ast.Delete):
                 for t in s.targets:
                     if isinstance(t, ast.Name):
